@@ -1018,6 +1018,11 @@ func poolConf(tier string) (p pool) {
 		lv.ConfMenu = []ConfSpec{{Changes: "v2"}}
 		p.dd = append(p.dd, lv)
 	}
+	// a snapshot whose membership does not contain the recipient (the node was removed while cut off;
+	// the application ships the snapshot it has) must be ignored
+	for _, f := range []feat{syncF, asyncF} {
+		p.dd = append(p.dd, confSc("snapshot-to-removed-node", f, seq(camp(1), prop(1), isolate(3), conf(1, mRemove3), prop(1), prop(1), compact(1, 0), heal(), sendSnap(1, 3), prop(1), sendSnap(1, 3), prop(1)), k, defaultFaults...))
+	}
 	// the last voter is asked to remove itself: the application cancels the committed change
 	for _, f := range []feat{syncF, asyncF} {
 		p.dd = append(p.dd, confSc("remove-last-voter", f, seq(camp(1), conf(1, mRemove3), prop(1), conf(1, mV1Remove2), prop(1), conf(1, mRemove1), prop(1), conf(1, mAddVoter4), prop(1)), k, defaultFaults...))
@@ -1334,6 +1339,7 @@ func Jobs(prop, tier string) []*Job {
 		add(pool{dd: poolSafety(tier).dd}, prop)
 	case "C09":
 		add(poolSnapshot(tier), prop)
+		add(pool{dd: poolConf(tier).dd}, prop) // snapshots that carry membership changes
 	case "C10":
 		add(poolConf(tier), prop)
 		addNode()
